@@ -20,6 +20,7 @@ structure ShScope where
   closerTy : Ty
   inE : Bool            -- opened in operand position (parentheses / cast / tuple); else call or subscript
   savedQ : Nat
+  castOk : Bool := true -- a cast may stand here (the operator before the pair does not bind tighter than a cast)
   deriving DecidableEq, Repr
 
 structure Sh where
@@ -82,7 +83,8 @@ def shStep (s : Sh) (t : Tok) (next : Option Tok) : Option Sh :=
       if s.needOperand then
         if has o.ty T.parentheses || has o.ty T.braces then
           some { needOperand := true, pendingQ := 0, content := .empty,
-                 stack := { closerTy := shl1 o.ty, inE := true, savedQ := s.pendingQ } :: s.stack,
+                 stack := { closerTy := shl1 o.ty, inE := true, savedQ := s.pendingQ,
+                            castOk := prefixKeeps .parenCast s } :: s.stack,
                  prev := some t, prevCastEnd := false }
         else none
       else
@@ -97,8 +99,10 @@ def shStep (s : Sh) (t : Tok) (next : Option Tok) : Option Sh :=
       | sc :: rest =>
         if o.ty == sc.closerTy && s.pendingQ == 0 && (!s.needOperand || s.content == .empty) then
           if sc.inE && has o.ty T.parentheses && s.content == .oneType then
-            some { needOperand := true, pendingQ := sc.savedQ, content := .other, stack := rest,
-                   prev := some t, prevCastEnd := true }
+            if sc.castOk then
+              some { needOperand := true, pendingQ := sc.savedQ, content := .other, stack := rest,
+                     prev := some t, prevCastEnd := true }
+            else none
           else
             some { needOperand := false, pendingQ := sc.savedQ, content := .other, stack := rest,
                    prev := some t, prevCastEnd := false }
@@ -149,6 +153,43 @@ def CShape (ts : List Tok) : Bool :=
   match shRun none {} ts with
   | none => false
   | some s => s.stack.isEmpty && s.pendingQ == 0 && (!s.needOperand || ts.isEmpty)
+
+/-! ### precedence-correct trees (what a C parser builds: "ParserImage") -/
+
+/-- binding level of the root operator of a tree (0: primary expression) -/
+def rootPrec : Expr → Nat
+  | .lu o _ => o.prec
+  | .ru o _ => o.prec
+  | .bin o _ _ => o.prec
+  | .tern _ _ _ => Op.questionMark.prec
+  | .cast _ _ _ => Op.parenCast.prec
+  | .sizeof _ => Op.sizeof_.prec
+  | .throw_ _ => Op.throw_.prec
+  | _ => 0
+
+/-- an operand with root level `p` may stand to the LEFT of an operator of level `q` without parentheses -/
+def leftFits (q p : Nat) : Bool := p < q || (p == q && leftAssoc q)
+/-- ... to the RIGHT -/
+def rightFits (q p : Nat) : Bool := p < q || (p == q && !leftAssoc q)
+
+/-- every operand binds at least as tightly as its position requires; looser operands only occur inside
+    parentheses, call arguments, subscripts and tuples (which restart at the loosest level), the middle
+    operand of `?:` is unrestricted -/
+def canonB : Expr → Bool
+  | .lu o e => canonB e && rightFits o.prec (rootPrec e)
+  | .ru o e => canonB e && leftFits o.prec (rootPrec e)
+  | .bin o l r => canonB l && canonB r && leftFits o.prec (rootPrec l) && rightFits o.prec (rootPrec r)
+  | .tern c t f => canonB c && canonB t && canonB f &&
+      leftFits Op.questionMark.prec (rootPrec c) && rightFits Op.questionMark.prec (rootPrec f)
+  | .paren e => canonB e
+  | .call f a => canonB f && canonB a && rootPrec f == 0
+  | .sub v i => canonB v && canonB i && rootPrec v == 0
+  | .cast _ _ e => canonB e && rightFits Op.parenCast.prec (rootPrec e)
+  | .sizeof e => canonB e && rightFits Op.sizeof_.prec (rootPrec e)
+  | .throw_ e => canonB e && rightFits Op.throw_.prec (rootPrec e)
+  | .tuple a => canonB a
+  | .pair _ _ => false
+  | _ => true
 
 /-- every operator token is one the tokenizer can produce (a registered spelling) -/
 def lexedB (ts : List Tok) : Bool :=
